@@ -168,6 +168,9 @@ func c08Run(r *sim.Run) {
 		if !v.MdatFirst {
 			v.MdatLast = t.Bool()
 		}
+		if t.Chance(250) {
+			v.EmptyMdat = 1 + t.Draw(3)
+		}
 		if t.Chance(300) {
 			v.FreePad = 8 + t.Draw(24)
 		}
